@@ -9,6 +9,7 @@ import (
 	"encoding/json"
 	"errors"
 	"fmt"
+	ebuotel "github.com/jilio/ebu/otel"
 	"math/rand/v2"
 	"os"
 	"reflect"
@@ -111,7 +112,13 @@ func TestC03Mix(t *testing.T) {
 		if (i/len(kinds))%2 == 1 || run.Shard%2 == 1 {
 			// every other round / shard: an Observability implementation next to the store (its callbacks run on
 			// the publishers' and the async handlers' goroutines)
-			opts = append(opts, ebu.WithObservability(&countingObs{}))
+			if (i+run.Shard)%4 < 2 {
+				opts = append(opts, ebu.WithObservability(&countingObs{}))
+			} else if o, err := ebuotel.New(); err == nil {
+				// the bundled OpenTelemetry implementation (no-op providers): its own bookkeeping runs on
+				// the publishers' and the async handlers' goroutines too
+				opts = append(opts, ebu.WithObservability(o))
+			}
 		}
 		bus := ebu.New(opts...) // setters are applied before concurrent use begins
 		mat := state.NewMaterializer()
